@@ -35,7 +35,7 @@ KERNELS = [
          rowvars={}, rowparams=[("n", INT)], lens={"self": "n"},
          params={"s.start": ("s_start", OPT), "s.stop": ("s_stop", OPT), "s.step": ("s_step", OPT)},
          slices={"s": ("s.start", "s.stop", "s.step")},
-         stop_before="if start >= end", returns=["start", "end", "step", "start >= end"],
+         stop_before="$first_returning_if", returns=["start", "end", "step", "$test"],
          type="Int × Int × Int × Bool",
          note="K8: slice normalisation of RunLengthArray._get_slice up to its emptiness test: (start, end, step, is_empty)"),
     dict(name="ht_hash", file="npstructures/hashtable.py", qual="HashTable._get_hash",
